@@ -15,3 +15,14 @@ print("| id | change | needs | confirmed | our checks | note |")
 print("|----|--------|-------|-----------|------------|------|")
 for r in rows:
     print("| " + " | ".join(r) + " |")
+
+# with --update, rewrite the table between the markers in DESIGN.md
+import sys
+if "--update" in sys.argv:
+    root = os.path.dirname(os.path.dirname(os.path.abspath(__file__)))
+    dp = os.path.join(root, "DESIGN.md")
+    d = open(dp).read()
+    b, e = "<!-- seeded-table:begin -->", "<!-- seeded-table:end -->"
+    table = "| id | change | needs | confirmed | our checks | note |\n|----|--------|-------|-----------|------------|------|\n" + "".join("| " + " | ".join(r) + " |\n" for r in rows)
+    d = d[:d.index(b) + len(b)] + "\n" + table + d[d.index(e):]
+    open(dp, "w").write(d)
